@@ -387,6 +387,20 @@ class Interp:
             st.events.append(("store", norm(target), v))
         elif isinstance(target, ast.Subscript):
             st.events.append(("store", norm(target), v))
+            # a container built in a local: the variable gets a NEW constant with the item stored
+            if isinstance(target.value, ast.Name) and isinstance(st.env.get(target.value.id), Const) \
+                    and isinstance(st.env[target.value.id].v, (dict, list)) and not isinstance(target.slice, ast.Slice):
+                ks = self.eval(target.slice, st)
+                if len(ks) == 1 and isinstance(ks[0][0], Const) and isinstance(v, Const):
+                    import copy as _copy
+                    cur = _copy.deepcopy(st.env[target.value.id].v)
+                    try:
+                        cur[ks[0][0].v] = v.v
+                        st.env[target.value.id] = Const(cur)
+                    except Exception:
+                        st.env[target.value.id] = Unknown("container")
+                else:
+                    st.env[target.value.id] = Unknown("container")
         return None
 
     @staticmethod
@@ -472,6 +486,20 @@ class Interp:
                     res.append((Const(tuple(i.v for i in items)), s))
                 else:
                     res.append((Tup(items), s))
+            return res
+        if isinstance(e, ast.Dict) and all(k is not None for k in e.keys):
+            res = []
+            for items, s in self.seq(list(e.keys) + list(e.values), st):
+                if isinstance(items, Exc):
+                    res.append((items, s))
+                elif all(isinstance(i, Const) for i in items):
+                    n_ = len(e.keys)
+                    try:
+                        res.append((Const({k.v: v.v for k, v in zip(items[:n_], items[n_:])}), s))
+                    except TypeError:
+                        res.append((Unknown("dict"), s))
+                else:
+                    res.append((Unknown("dict"), s))
             return res
         if isinstance(e, ast.BoolOp):
             is_and = isinstance(e.op, ast.And)
@@ -739,6 +767,20 @@ class Interp:
                 else:
                     s2.env[key] = Unknown("list")
                 return [(Const(None), s2)]
+        if isinstance(f, ast.Attribute) and isinstance(recv, Const) and isinstance(recv.v, dict) and f.attr in ("update", "setdefault") \
+                and isinstance(f.value, ast.Name) and f.value.id in st.env and not kw:
+            s2 = st.copy()
+            if all(isinstance(a, Const) for a in args):
+                import copy as _copy
+                cur = _copy.deepcopy(recv.v)
+                try:
+                    r = getattr(cur, f.attr)(*[a.v for a in args])
+                    s2.env[f.value.id] = Const(cur)
+                    return [(Const(r), s2)]
+                except Exception as ex:
+                    return [(Exc(type(ex).__name__, e), st)]
+            s2.env[f.value.id] = Unknown("container")
+            return [(Unknown("call:%s" % f.attr), s2)]
         if isinstance(f, ast.Attribute) and isinstance(recv, Const):
             if recv.v is None:
                 return [(Exc("AttributeError", e), st)]
